@@ -172,6 +172,13 @@ uint64_t __g_vec_b;   /* ghost: arbitrary-but-fixed byte index observed by the c
    {p,n,cap}: p owns n elements (cap is unobservable and unused).  Copies are deep (vec_S_clone), moves are struct
    copies.  Storage is never freed.  Each function also carries a contract so that unbounded proofs can use
    --replace-call-with-contract instead of the looping body. */
+/* storage size of a modelled reserve(c): exact by default; bounded groups may ask for constant-size storage
+   (-DCXX_RESERVE_CONST_STORAGE) because a symbolic object size exhausts the SAT back end when the loops are unwound */
+#ifdef CXX_RESERVE_CONST_STORAGE
+#define CXX_RESERVE_BYTES(c, T) ((c) <= CXX_VEC_CAP ? CXX_VEC_CAP * sizeof(T) : (c) * sizeof(T))
+#else
+#define CXX_RESERVE_BYTES(c, T) ((c) * sizeof(T))
+#endif
 #define CXX_VEC(T, S) \
   static inline void vec_##S##_resize(vec_##S *v, uint64_t n) \
   __CPROVER_requires(__CPROVER_rw_ok(v, sizeof(*v)) && n <= 0x0FFFFFFFFFFFFFFFul / sizeof(T)) \
@@ -185,6 +192,11 @@ uint64_t __g_vec_b;   /* ghost: arbitrary-but-fixed byte index observed by the c
     for (uint64_t __k = 0; __k < n; ++__k) { if (__k < v->n) np[__k] = v->p[__k]; else np[__k] = val; } \
     v->p = np; v->n = n; v->cap = n; } \
   static inline void vec_##S##_clear(vec_##S *v) { v->n = 0; } \
+  static inline void vec_##S##_reserve(vec_##S *v, uint64_t c) \
+  { /* only lowered under '@option model_reserve': storage for c elements; push_back below capacity does not reallocate */ \
+    if (c > v->cap) { T *np = (T *)cxx_alloc(CXX_RESERVE_BYTES(c, T)); \
+      for (uint64_t __k = 0; __k < v->n; ++__k) np[__k] = v->p[__k]; \
+      v->p = np; v->cap = c; } } \
   static inline void vec_##S##_grow(vec_##S *v, uint64_t need) \
   { /* storage grows once to CXX_VEC_CAP elements; growing beyond it is a bound of the MODEL, not of the code */ \
     if (need > v->cap) { \
@@ -198,6 +210,16 @@ uint64_t __g_vec_b;   /* ghost: arbitrary-but-fixed byte index observed by the c
   __CPROVER_requires(__CPROVER_rw_ok(v, sizeof(*v)) && v->n < 0xFFFFFFFFul) \
   __CPROVER_assigns(v->p, v->n, v->cap) \
   __CPROVER_ensures(v->n == __CPROVER_old(v->n) + 1 && v->cap >= v->n && __CPROVER_is_fresh(v->p, v->n * sizeof(T))) \
+  { vec_##S##_grow(v, v->n + 1); v->p[v->n] = val; v->n = v->n + 1; } \
+  static inline void vec_##S##_push_back_reserved(vec_##S *v, T val) \
+  /* push_back on a vector whose reserve() is modelled ('@option model_reserve <names>'): below capacity the storage and the \
+     capacity are kept (the C++ guarantee after reserve()); at capacity fresh storage is returned */ \
+  __CPROVER_requires(__CPROVER_rw_ok(v, sizeof(*v)) && v->n < 0xFFFFFFFFul) \
+  __CPROVER_requires(v->n < v->cap ==> __CPROVER_rw_ok(v->p, v->cap * sizeof(T))) \
+  __CPROVER_assigns(v->n; v->n >= v->cap: v->p, v->cap; v->n < v->cap: __CPROVER_object_whole(v->p)) \
+  __CPROVER_ensures(v->n == __CPROVER_old(v->n) + 1 && v->cap >= v->n) \
+  __CPROVER_ensures(__CPROVER_old(v->n) < __CPROVER_old(v->cap) ==> (v->p == __CPROVER_old(v->p) && v->cap == __CPROVER_old(v->cap))) \
+  __CPROVER_ensures(__CPROVER_old(v->n) >= __CPROVER_old(v->cap) ==> __CPROVER_is_fresh(v->p, v->n * sizeof(T))) \
   { vec_##S##_grow(v, v->n + 1); v->p[v->n] = val; v->n = v->n + 1; } \
   static inline void vec_##S##_pop_back(vec_##S *v) { CXX_ASSERT(v->n > 0, "pop_back on empty vector"); v->n--; } \
   static inline void vec_##S##_pop_front(vec_##S *v) { CXX_ASSERT(v->n > 0, "pop_front on empty deque"); v->p++; v->n--; } \
